@@ -125,3 +125,399 @@ Proof.
   - replace (S n - 1 - 0)%nat with n by lia. reflexivity.
   - rewrite IH by lia. replace (S n - 1 - S k)%nat with (n - 1 - k)%nat by lia. reflexivity.
 Qed.
+
+(* ------------------------------------------------------------------ row-major flattening *)
+Lemma flat_length r c m : wfm r c m -> length (flat m) = (r * c)%nat.
+Proof.
+  intros [L F]. subst r. unfold flat. induction F as [|row m Hrow F IH]; cbn [concat length]; [reflexivity|].
+  rewrite app_length, IH, Hrow. lia.
+Qed.
+
+Lemma nth_flat r c m i j : wfm r c m -> (i < r)%nat -> (j < c)%nat ->
+  nth (i * c + j) (flat m) 0 = get m i j.
+Proof.
+  intros [L F]. subst r. revert i. unfold flat, get.
+  induction F as [|row m Hrow F IH]; intros i Hi Hj; cbn [length] in Hi; [lia|].
+  cbn [concat]. destruct i as [|i].
+  - cbn [nth Nat.mul Nat.add]. apply app_nth1. lia.
+  - cbn [nth]. rewrite app_nth2 by lia. rewrite Hrow.
+    replace (S i * c + j - c)%nat with (i * c + j)%nat by lia. apply IH; lia.
+Qed.
+
+Lemma unflat_flat r c m : wfm r c m -> unflat r c (flat m) = m.
+Proof.
+  intros W. apply (mat_ext r c); [apply wfm_mk|exact W|]. intros i j Hi Hj.
+  unfold unflat. rewrite get_mk by assumption. apply (nth_flat r c); assumption.
+Qed.
+
+Lemma divmod_lt r c k : (k < r * c)%nat -> (k / c < r)%nat /\ (k mod c < c)%nat /\ (k = (k / c) * c + k mod c)%nat.
+Proof.
+  intros H. assert (Hc : (0 < c)%nat) by (destruct c; lia).
+  pose proof (Nat.div_mod k c ltac:(lia)) as E. pose proof (Nat.mod_upper_bound k c ltac:(lia)) as U.
+  split; [|split; [exact U|lia]].
+  apply Nat.div_lt_upper_bound; lia.
+Qed.
+
+Lemma flat_mk r c f :
+  flat (mk r c f) = map (fun k => f (k / c)%nat (k mod c)%nat) (seq 0 (r * c)).
+Proof.
+  apply (nth_ext _ _ 0 0).
+  - rewrite (flat_length r c) by apply wfm_mk. rewrite map_length, seq_length. reflexivity.
+  - intros k Hk. rewrite (flat_length r c) in Hk by apply wfm_mk.
+    destruct (divmod_lt r c k Hk) as [H1 [H2 H3]].
+    rewrite (nth_map_seq (fun k => f (k / c)%nat (k mod c)%nat)) by exact Hk.
+    rewrite H3 at 1. rewrite (nth_flat r c) by (try apply wfm_mk; assumption).
+    apply get_mk; assumption.
+Qed.
+
+Lemma flat_unflat r c l : length l = (r * c)%nat -> flat (unflat r c l) = l.
+Proof.
+  intros L. unfold unflat. rewrite flat_mk. apply (nth_ext _ _ 0 0).
+  - rewrite map_length, seq_length. lia.
+  - intros k Hk. rewrite map_length, seq_length in Hk.
+    rewrite (nth_map_seq (fun k => nth (k / c * c + k mod c) l 0)) by exact Hk.
+    destruct (divmod_lt r c k Hk) as [_ [_ H3]]. rewrite <- H3. reflexivity.
+Qed.
+
+(* ------------------------------------------------------------------ wire <-> matrix round trips *)
+Definition mrange (a : Mx) : Prop := forall i j, inrange (el a i j) (bits a).
+Definition wfx (r c : nat) (a : Mx) : Prop := wfm r c (dat a) /\ (0 < r)%nat /\ (0 < c)%nat.
+
+Lemma wfx_rows r c a : wfx r c a -> rows_of a = r.
+Proof. intros [[L _] _]. exact L. Qed.
+Lemma wfx_cols r c a : wfx r c a -> cols_of a = c.
+Proof. intros [W [Hr _]]. apply (wfm_ncols r c); assumption. Qed.
+
+Lemma trunc_id b x : inrange x b -> trunc b x = x.
+Proof. intros H. unfold trunc. apply Z.mod_small. exact H. Qed.
+
+Lemma trunc_range b x : 0 <= b -> inrange (trunc b x) b.
+Proof. intros. apply mod_range. assumption. Qed.
+
+Lemma all_inrange_trunc b l : 0 <= b -> all_inrange b (map (trunc b) l).
+Proof. intros Hb. apply Forall_forall. intros x Hin. apply in_map_iff in Hin. destruct Hin as [y [<- _]]. apply trunc_range; exact Hb. Qed.
+
+(* matrix_wv_to_list inverts to_wirevector (each element as seen through `bits`) *)
+Lemma wv_to_list_to_wv r c a i j : wfx r c a -> 0 <= bits a -> (i < r)%nat -> (j < c)%nat ->
+  get (matrix_wv_to_list (to_wv a) r c (bits a)) i j = trunc (bits a) (el a i j).
+Proof.
+  intros [W [Hr Hc]] Hb Hi Hj. unfold matrix_wv_to_list, to_wv, unflat. rewrite get_mk by assumption.
+  replace (r * c)%nat with (length (map (trunc (bits a)) (flat (dat a))))
+    by (rewrite map_length; apply flat_length; exact W).
+  rewrite decode_encode by (try apply all_inrange_trunc; assumption).
+  change 0 with (trunc (bits a) 0) at 1. rewrite map_nth. f_equal. apply (nth_flat r c); assumption.
+Qed.
+
+Theorem wv_roundtrip r c a : wfx r c a -> 0 <= bits a -> mrange a ->
+  matrix_wv_to_list (to_wv a) r c (bits a) = dat a.
+Proof.
+  intros W Hb R. apply (mat_ext r c); [apply wfm_mk|apply W|]. intros i j Hi Hj.
+  rewrite wv_to_list_to_wv by assumption. apply trunc_id. apply R.
+Qed.
+
+(* to_wirevector of what matrix_wv_to_list produced gives back the low rows*columns*bits bits *)
+Theorem list_roundtrip r c b mb v : 0 <= b -> (0 < r)%nat -> (0 < c)%nat ->
+  to_wv (MkMx b mb (matrix_wv_to_list v r c b)) = v mod 2 ^ (b * Z.of_nat (r * c)).
+Proof.
+  intros Hb Hr Hc. unfold to_wv, matrix_wv_to_list. cbn [bits dat].
+  rewrite flat_unflat by apply decode_length.
+  rewrite <- encode_decode by assumption. f_equal.
+  rewrite <- (map_id (decode b (r * c) v)) at 2. apply map_ext_in. intros x Hin.
+  apply trunc_id. pose proof (decode_inrange b (r * c) v Hb) as F. unfold all_inrange in F. rewrite Forall_forall in F. apply F, Hin.
+Qed.
+
+(* the constructor's slice arithmetic is the row-major layout *)
+Lemma mx_in_layout r c b mb v i j : (i < r)%nat -> (j < c)%nat ->
+  el (mx_in r c b mb v) i j = nth (i * c + j) (decode (capb b mb) (r * c) v) 0.
+Proof.
+  intros Hi Hj. unfold el, mx_in. cbn [dat]. rewrite get_mk by assumption.
+  assert (Hk : (i * c + j < r * c)%nat) by nia.
+  rewrite nth_decode by exact Hk. do 3 f_equal.
+  replace (r * c - 1 - (i * c + j))%nat with ((r - 1 - i) * c + (c - 1 - j))%nat by nia.
+  rewrite Nat2Z.inj_add, Nat2Z.inj_mul. ring.
+Qed.
+
+Lemma capb_id b mb : b <= mb -> capb b mb = b.
+Proof. unfold capb. intros. destruct (b >? mb) eqn:E; lia. Qed.
+
+Lemma capb_le b mb : capb b mb <= b /\ capb b mb <= mb.
+Proof. unfold capb. destruct (b >? mb) eqn:E; lia. Qed.
+
+Lemma wfx_mx_in r c b mb v : (0 < r)%nat -> (0 < c)%nat -> wfx r c (mx_in r c b mb v).
+Proof. intros. split; [apply wfm_mk|split; assumption]. Qed.
+
+(* Matrix.copy (to_wirevector, then the WireVector constructor) preserves every element *)
+Theorem copy_correct r c a : wfx r c a -> 0 <= bits a <= maxb a -> mrange a ->
+  dat (mcopy a) = dat a /\ bits (mcopy a) = bits a.
+Proof.
+  intros W [Hb Hm] R. pose proof W as [Wm [Hr Hc]].
+  unfold mcopy. rewrite (wfx_rows r c a W), (wfx_cols r c a W). split.
+  - apply (mat_ext r c); [apply wfm_mk|exact Wm|]. intros i j Hi Hj.
+    change (get (dat (mx_in r c (bits a) (maxb a) (to_wv a))) i j)
+      with (el (mx_in r c (bits a) (maxb a) (to_wv a)) i j).
+    rewrite mx_in_layout by assumption. rewrite capb_id by exact Hm.
+    pose proof (wv_to_list_to_wv r c a i j W Hb Hi Hj) as E.
+    unfold matrix_wv_to_list, unflat in E. rewrite get_mk in E by assumption.
+    rewrite E. apply trunc_id, R.
+  - cbn [mx_in bits]. apply capb_id; exact Hm.
+Qed.
+
+(* ------------------------------------------------------------------ list_to_int *)
+Lemma lor_shiftl_add' r v w : 0 <= w -> inrange v w -> Z.lor (Z.shiftl r w) v = r * 2 ^ w + v.
+Proof.
+  intros Hw Hv.
+  assert (Hl : Z.land (Z.shiftl r w) v = 0).
+  { apply Z.bits_inj'. intros i Hi. rewrite Z.land_spec, Z.bits_0.
+    destruct (Z.lt_ge_cases i w).
+    - rewrite Z.shiftl_spec_low by assumption. reflexivity.
+    - rewrite (inrange_testbit v w) by auto. apply andb_false_r. }
+  rewrite <- Z.lxor_lor by exact Hl. rewrite <- Z.add_nocarry_lxor by exact Hl.
+  rewrite Z.shiftl_mul_pow2 by exact Hw. reflexivity.
+Qed.
+
+Lemma list_to_int_fold b l : 0 <= b -> forall acc,
+  fold_left (fun acc x => Z.lor (Z.shiftl acc b) (Z.land x (Z.ones b))) l acc
+  = acc * 2 ^ (b * Z.of_nat (length l)) + encode b (map (trunc b) l).
+Proof.
+  intros Hb. induction l as [|x xs IH]; intros acc; cbn [fold_left map encode length].
+  - rewrite Z.mul_0_r. simpl. lia.
+  - rewrite IH. rewrite Z.land_ones by exact Hb.
+    rewrite lor_shiftl_add' by (try apply mod_range; assumption).
+    rewrite map_length. rewrite pow2_split by exact Hb. unfold trunc. ring.
+Qed.
+
+Theorem list_to_int_encode m b : 0 <= b -> list_to_int m b = encode b (map (trunc b) (flat m)).
+Proof. intros Hb. unfold list_to_int. rewrite list_to_int_fold by exact Hb. lia. Qed.
+
+(* ------------------------------------------------------------------ element-wise arithmetic *)
+Lemma el_mnew r c b mb f i j : (i < r)%nat -> (j < c)%nat ->
+  el (mnew r c b mb f) i j = trunc (capb b mb) (f i j).
+Proof. intros. unfold el, mnew. cbn [dat]. apply get_mk; assumption. Qed.
+
+Lemma wfx_mnew r c b mb f : (0 < r)%nat -> (0 < c)%nat -> wfx r c (mnew r c b mb f).
+Proof. intros. split; [apply wfm_mk|split; assumption]. Qed.
+
+Lemma mod_mod_le v p q : 0 <= p <= q -> (v mod 2 ^ q) mod 2 ^ p = v mod 2 ^ p.
+Proof.
+  intros [Hp Hq]. symmetry. apply Znumtheory.Zmod_div_mod; try (apply pow2_pos; lia).
+  exists (2 ^ (q - p)). rewrite <- Z.pow_add_r by lia. f_equal. lia.
+Qed.
+
+Lemma pow2_mono p q : 0 <= p <= q -> 2 ^ p <= 2 ^ q.
+Proof. intros. apply Z.pow_le_mono_r; lia. Qed.
+
+Lemma zmax_if x y : (if y >? x then y else x) = Z.max x y.
+Proof. destruct (y >? x) eqn:E; lia. Qed.
+
+Lemma wv_add_exact wa wb x y : inrange x wa -> inrange y wb -> wv_add wa wb x y = x + y.
+Proof.
+  intros [Hx0 Hx1] [Hy0 Hy1]. unfold wv_add. apply Z.mod_small.
+  assert (0 <= wa) by (apply (inrange_nonneg_w x); split; assumption).
+  assert (0 <= wb) by (apply (inrange_nonneg_w y); split; assumption).
+  pose proof (pow2_mono wa (Z.max wa wb) ltac:(lia)). pose proof (pow2_mono wb (Z.max wa wb) ltac:(lia)).
+  rewrite Z.pow_add_r by lia. lia.
+Qed.
+
+Lemma sat_sub_exact wa wb x y : inrange x wa -> inrange y wb -> sat_sub wa wb x y = Z.max (x - y) 0.
+Proof.
+  intros [Hx0 Hx1] [Hy0 Hy1]. unfold sat_sub, wv_sub.
+  assert (0 <= wa) by (apply (inrange_nonneg_w x); split; assumption).
+  assert (0 <= wb) by (apply (inrange_nonneg_w y); split; assumption).
+  destruct (x >? y) eqn:E; [|lia].
+  rewrite Z.mod_small; [lia|].
+  pose proof (pow2_mono wa (Z.max wa wb) ltac:(lia)). rewrite Z.pow_add_r by lia. lia.
+Qed.
+
+Lemma mul_lt_pow2 wa wb x y : inrange x wa -> inrange y wb -> 0 <= x * y < 2 ^ (wa + wb).
+Proof.
+  intros [Hx0 Hx1] [Hy0 Hy1].
+  assert (0 <= wa) by (apply (inrange_nonneg_w x); split; assumption).
+  assert (0 <= wb) by (apply (inrange_nonneg_w y); split; assumption).
+  rewrite Z.pow_add_r by lia. nia.
+Qed.
+
+Lemma wv_mul_exact wa wb x y : inrange x wa -> inrange y wb -> wv_mul wa wb x y = x * y.
+Proof. intros Hx Hy. unfold wv_mul. apply Z.mod_small. apply mul_lt_pow2; assumption. Qed.
+
+Section Elementwise.
+  Variables (r c : nat) (a b : Mx).
+  Hypothesis Wa : wfx r c a.
+  Hypothesis Ra : mrange a.
+  Hypothesis Rb : mrange b.
+
+  Let mxb := Z.max (bits a) (bits b).
+
+  Theorem add_mod i j : (i < r)%nat -> (j < c)%nat ->
+    bits (madd a b) = capb (mxb + 1) (maxb a) /\
+    el (madd a b) i j = (el a i j + el b i j) mod 2 ^ bits (madd a b).
+  Proof.
+    intros Hi Hj. unfold madd. rewrite (wfx_rows r c a Wa), (wfx_cols r c a Wa), zmax_if.
+    split; [reflexivity|]. rewrite el_mnew by assumption. cbn [mnew bits].
+    rewrite wv_add_exact by (try apply Ra; apply Rb). reflexivity.
+  Qed.
+
+  Theorem add_width_exact i j : (i < r)%nat -> (j < c)%nat -> mxb + 1 <= maxb a ->
+    bits (madd a b) = mxb + 1 /\ el (madd a b) i j = el a i j + el b i j.
+  Proof.
+    intros Hi Hj Hm. destruct (add_mod i j Hi Hj) as [Eb Ev]. rewrite Ev, Eb, capb_id by exact Hm.
+    split; [reflexivity|]. apply Z.mod_small.
+    pose proof (Ra i j) as [Hx0 Hx1]. pose proof (Rb i j) as [Hy0 Hy1].
+    assert (0 <= bits a) by (apply (inrange_nonneg_w (el a i j)); split; assumption).
+    assert (0 <= bits b) by (apply (inrange_nonneg_w (el b i j)); split; assumption).
+    pose proof (pow2_mono (bits a) mxb ltac:(unfold mxb; lia)).
+    pose proof (pow2_mono (bits b) mxb ltac:(unfold mxb; lia)).
+    rewrite Z.pow_add_r by (unfold mxb; lia). lia.
+  Qed.
+
+  Theorem sub_mod i j : (i < r)%nat -> (j < c)%nat ->
+    bits (msub a b) = capb mxb (maxb a) /\
+    el (msub a b) i j = Z.max (el a i j - el b i j) 0 mod 2 ^ bits (msub a b).
+  Proof.
+    intros Hi Hj. unfold msub. rewrite (wfx_rows r c a Wa), (wfx_cols r c a Wa), zmax_if.
+    split; [reflexivity|]. rewrite el_mnew by assumption. cbn [mnew bits].
+    rewrite sat_sub_exact by (try apply Ra; apply Rb). reflexivity.
+  Qed.
+
+  (* saturating: never wraps below 0, and exact when max_bits is not reached *)
+  Theorem sub_saturates i j : (i < r)%nat -> (j < c)%nat -> mxb <= maxb a ->
+    el (msub a b) i j = (if el a i j <=? el b i j then 0 else el a i j - el b i j).
+  Proof.
+    intros Hi Hj Hm. destruct (sub_mod i j Hi Hj) as [Eb Ev]. rewrite Ev, Eb, capb_id by exact Hm.
+    pose proof (Ra i j) as [Hx0 Hx1]. pose proof (Rb i j) as [Hy0 Hy1].
+    assert (0 <= bits a) by (apply (inrange_nonneg_w (el a i j)); split; assumption).
+    pose proof (pow2_mono (bits a) mxb ltac:(unfold mxb; lia)).
+    rewrite Z.mod_small by lia. destruct (el a i j <=? el b i j) eqn:E; lia.
+  Qed.
+
+  Theorem mul_mod i j : (i < r)%nat -> (j < c)%nat ->
+    bits (mmul a b) = capb (bits a + bits b) (maxb a) /\
+    el (mmul a b) i j = (el a i j * el b i j) mod 2 ^ bits (mmul a b).
+  Proof.
+    intros Hi Hj. unfold mmul. rewrite (wfx_rows r c a Wa), (wfx_cols r c a Wa).
+    split; [reflexivity|]. rewrite el_mnew by assumption. cbn [mnew bits].
+    rewrite wv_mul_exact by (try apply Ra; apply Rb). reflexivity.
+  Qed.
+
+  Theorem mul_width_exact i j : (i < r)%nat -> (j < c)%nat -> bits a + bits b <= maxb a ->
+    bits (mmul a b) = bits a + bits b /\ el (mmul a b) i j = el a i j * el b i j.
+  Proof.
+    intros Hi Hj Hm. destruct (mul_mod i j Hi Hj) as [Eb Ev]. rewrite Ev, Eb, capb_id by exact Hm.
+    split; [reflexivity|]. apply Z.mod_small. apply mul_lt_pow2; [apply Ra|apply Rb].
+  Qed.
+End Elementwise.
+
+Theorem scal_mod r c a ws s i j : wfx r c a -> mrange a -> inrange s ws -> (i < r)%nat -> (j < c)%nat ->
+  bits (mscal a ws s) = capb (bits a + ws) (maxb a) /\
+  el (mscal a ws s) i j = (el a i j * s) mod 2 ^ bits (mscal a ws s).
+Proof.
+  intros Wa Ra Hs Hi Hj. unfold mscal. rewrite (wfx_rows r c a Wa), (wfx_cols r c a Wa).
+  split; [reflexivity|]. rewrite el_mnew by assumption. cbn [mnew bits].
+  rewrite wv_mul_exact by (try apply Ra; exact Hs). reflexivity.
+Qed.
+
+Theorem scal_width_exact r c a ws s i j : wfx r c a -> mrange a -> inrange s ws -> (i < r)%nat -> (j < c)%nat ->
+  bits a + ws <= maxb a ->
+  bits (mscal a ws s) = bits a + ws /\ el (mscal a ws s) i j = el a i j * s.
+Proof.
+  intros Wa Ra Hs Hi Hj Hm. destruct (scal_mod r c a ws s i j Wa Ra Hs Hi Hj) as [Eb Ev].
+  rewrite Ev, Eb, capb_id by exact Hm. split; [reflexivity|]. apply Z.mod_small.
+  apply mul_lt_pow2; [apply Ra|exact Hs].
+Qed.
+
+(* ------------------------------------------------------------------ matrix multiplication *)
+Definition sumZ (l : list Z) : Z := fold_right Z.add 0 l.
+(* the mathematical entry (i,j) of A.B with inner dimension K *)
+Definition dot_spec (a b : Mx) (K : nat) (i j : nat) : Z :=
+  sumZ (map (fun k => el a i k * el b k j) (seq 0 K)).
+
+(* F11 (fused_multiply_adder result one bit too narrow) cannot surface: __setitem__ truncates the
+   fma result to result.bits = the addend's width, which is below the fma width *)
+Theorem fma_trunc_harmless wa wb rb x y acc : 0 <= rb ->
+  trunc rb (fma wa wb rb x y acc) = (x * y + acc) mod 2 ^ rb.
+Proof.
+  intros Hrb. unfold trunc, fma, fma_width. apply mod_mod_le. lia.
+Qed.
+
+Lemma matmul_fold wa wb rb (f g : nat -> Z) : 0 <= rb -> forall l a0,
+  fold_left (fun acc k => matmul_step wa wb rb acc (f k) (g k)) l (a0 mod 2 ^ rb)
+  = (a0 + sumZ (map (fun k => f k * g k) l)) mod 2 ^ rb.
+Proof.
+  intros Hrb. induction l as [|k l IH]; intros a0; cbn [fold_left map sumZ fold_right].
+  - rewrite Z.add_0_r. reflexivity.
+  - unfold matmul_step at 2. rewrite fma_trunc_harmless by exact Hrb.
+    rewrite Zplus_mod_idemp_r. rewrite IH. f_equal. fold (sumZ (map (fun k => f k * g k) l)). ring.
+Qed.
+
+Theorem matmul_mod r K c a b i j : wfx r K a -> wfx K c b -> 0 <= maxb a -> 0 <= bits a + bits b ->
+  (i < r)%nat -> (j < c)%nat ->
+  bits (mmatmul a b) = capb (Z.of_nat K * Z.of_nat K * (bits a + bits b)) (maxb a) /\
+  el (mmatmul a b) i j = dot_spec a b K i j mod 2 ^ bits (mmatmul a b).
+Proof.
+  intros Wa Wb Hm Hs Hi Hj. unfold mmatmul, matmul_bits.
+  rewrite (wfx_rows r K a Wa), (wfx_cols r K a Wa), (wfx_rows K c b Wb), (wfx_cols K c b Wb).
+  cbn [bits]. split; [reflexivity|]. unfold el at 1. cbn [dat]. rewrite get_mk by assumption.
+  unfold matmul_el. rewrite (wfx_cols r K a Wa).
+  set (rb := capb _ _).
+  assert (Hrb : 0 <= rb).
+  { subst rb. unfold capb. destruct (_ >? _) eqn:E; [exact Hm|]. apply Z.mul_nonneg_nonneg; lia. }
+  change 0 with (0 mod 2 ^ rb) at 1.
+  rewrite (matmul_fold (bits a) (bits b) rb (fun k => el a i k) (fun k => el b k j) Hrb).
+  reflexivity.
+Qed.
+
+Lemma sumZ_bound (h : nat -> Z) B : 0 <= B -> forall n, (forall k, (k < n)%nat -> 0 <= h k <= B) ->
+  forall s, (forall k, In k s -> (k < n)%nat) -> 0 <= sumZ (map h s) <= Z.of_nat (length s) * B.
+Proof.
+  intros HB n Hh s. induction s as [|k s IH]; intros Hs; cbn [map sumZ fold_right length].
+  - lia.
+  - fold (sumZ (map h s)). specialize (IH (fun k H => Hs k (or_intror H))).
+    pose proof (Hh k (Hs k (or_introl eq_refl))). lia.
+Qed.
+
+Lemma matmul_width_bound K wa wb : 1 <= K -> 0 <= wa -> 0 <= wb -> 1 <= wa + wb ->
+  K * ((2 ^ wa - 1) * (2 ^ wb - 1)) < 2 ^ (K * K * (wa + wb)).
+Proof.
+  intros HK Ha Hb Hs.
+  pose proof (pow2_pos wa Ha) as Pa. pose proof (pow2_pos wb Hb) as Pb.
+  assert (X : (2 ^ wa - 1) * (2 ^ wb - 1) < 2 ^ (wa + wb)) by (rewrite Z.pow_add_r by lia; nia).
+  assert (X0 : 0 <= (2 ^ wa - 1) * (2 ^ wb - 1)) by nia.
+  destruct (Z.eq_dec K 1) as [->|Hne].
+  - replace (1 * 1 * (wa + wb)) with (wa + wb) by ring. lia.
+  - assert (HK2 : 2 <= K) by lia.
+    pose proof (Z.pow_gt_lin_r 2 K ltac:(lia) ltac:(lia)) as Hlin.
+    assert (Hexp : K + (wa + wb) <= K * K * (wa + wb)).
+    { assert (H4 : 4 <= K * K) by nia. assert (H2 : 2 * K <= K * K) by nia.
+      pose proof (Z.mul_le_mono_nonneg_r 4 (K * K) (wa + wb - 1) ltac:(lia) H4) as H5.
+      replace (K * K * (wa + wb)) with (K * K * (wa + wb - 1) + K * K) by ring. lia. }
+    pose proof (pow2_mono (K + (wa + wb)) (K * K * (wa + wb)) ltac:(lia)) as Hmono.
+    rewrite Z.pow_add_r in Hmono by lia.
+    pose proof (pow2_pos (wa + wb) ltac:(lia)) as Ps.
+    assert (K * ((2 ^ wa - 1) * (2 ^ wb - 1)) < 2 ^ K * 2 ^ (wa + wb)) by nia.
+    lia.
+Qed.
+
+(* when max_bits is not reached, the declared width K*K*(bits a + bits b) holds the exact value *)
+Theorem matmul_width_exact r K c a b i j : wfx r K a -> wfx K c b -> mrange a -> mrange b ->
+  1 <= bits a + bits b -> Z.of_nat K * Z.of_nat K * (bits a + bits b) <= maxb a ->
+  (i < r)%nat -> (j < c)%nat ->
+  bits (mmatmul a b) = Z.of_nat K * Z.of_nat K * (bits a + bits b) /\
+  el (mmatmul a b) i j = dot_spec a b K i j.
+Proof.
+  intros Wa Wb Ra Rb Hs Hm Hi Hj.
+  assert (HK : (0 < K)%nat) by apply Wa.
+  assert (Hpos : 0 <= Z.of_nat K * Z.of_nat K * (bits a + bits b)) by (apply Z.mul_nonneg_nonneg; lia).
+  destruct (matmul_mod r K c a b i j Wa Wb ltac:(lia) ltac:(lia) Hi Hj) as [Eb Ev].
+  rewrite Ev, Eb, capb_id by exact Hm. split; [reflexivity|]. apply Z.mod_small.
+  assert (Ha : 0 <= bits a) by (apply (inrange_nonneg_w (el a 0 0)); apply Ra).
+  assert (Hb : 0 <= bits b) by (apply (inrange_nonneg_w (el b 0 0)); apply Rb).
+  pose proof (pow2_pos (bits a) Ha) as Pa. pose proof (pow2_pos (bits b) Hb) as Pb.
+  unfold dot_spec.
+  pose proof (sumZ_bound (fun k => el a i k * el b k j) ((2 ^ bits a - 1) * (2 ^ bits b - 1)) ltac:(nia) K) as SB.
+  assert (Hk : forall k, (k < K)%nat ->
+             0 <= el a i k * el b k j <= (2 ^ bits a - 1) * (2 ^ bits b - 1)).
+  { intros k _. pose proof (Ra i k) as [? ?]. pose proof (Rb k j) as [? ?]. nia. }
+  specialize (SB Hk (seq 0 K)). rewrite seq_length in SB.
+  assert (Hin : forall k, In k (seq 0 K) -> (k < K)%nat) by (intros k Hk'; apply in_seq in Hk'; lia).
+  specialize (SB Hin).
+  pose proof (matmul_width_bound (Z.of_nat K) (bits a) (bits b) ltac:(lia) Ha Hb Hs). lia.
+Qed.
